@@ -24,11 +24,11 @@ Logical == [kind : {"plain"}, sz : Sizes, al : Aligns, cnt : {0}, ck : {0}]
            \cup [kind : {"varying"}, sz : Sizes, al : Aligns, cnt : {0}, ck : CountKinds]
 
 (* count parameter kinds: 1 = unsigned char, 4 = std::uint32_t, 8 = AlignAs<std::uint64_t, 8> *)
-CountParam(ck) == [k |-> "count", sz |-> ck, al |-> IF ck = 8 THEN 8 ELSE 1, triv |-> 1, flt |-> 0]
+CountParam(ck) == [k |-> "count", sz |-> ck, al |-> IF ck = 8 THEN 8 ELSE 1, triv |-> 1, flt |-> 0, sgn |-> 0]
 
 Expand1(g) == IF g.kind = "varying"
-              THEN <<CountParam(g.ck), [k |-> "varying", sz |-> g.sz, al |-> g.al, triv |-> 1, flt |-> 0]>>
-              ELSE <<[k |-> g.kind, sz |-> g.sz, al |-> g.al, triv |-> 1, flt |-> 0]>>
+              THEN <<CountParam(g.ck), [k |-> "varying", sz |-> g.sz, al |-> g.al, triv |-> 1, flt |-> 0, sgn |-> 0]>>
+              ELSE <<[k |-> g.kind, sz |-> g.sz, al |-> g.al, triv |-> 1, flt |-> 0, sgn |-> 0]>>
 ExpandF1(g) == IF g.kind = "varying" THEN <<0, 0>> ELSE <<g.cnt>>
 
 RECURSIVE Expand(_), ExpandF(_)
